@@ -340,3 +340,80 @@ func (in *inst) funcDeclAST(recv, name string) *ast.FuncDecl {
 	}
 	return nil
 }
+
+// calledClosures: the Init-level closures f calls through their variables.
+func (v *rtView) calledClosures(f *ssa.Function) map[*ssa.Function][]ssa.CallInstruction {
+	out := map[*ssa.Function][]ssa.CallInstruction{}
+	instrsOf(f, func(in ssa.Instruction) {
+		call, ok := in.(ssa.CallInstruction)
+		if !ok || call.Common().IsInvoke() || call.Common().StaticCallee() != nil {
+			return
+		}
+		if u, ok := call.Common().Value.(*ssa.UnOp); ok && u.Op == token.MUL {
+			if n, whole := v.varOf(u.X); n != "" && whole {
+				if g := v.cl[n]; g != nil {
+					out[g] = append(out[g], call)
+				}
+			}
+		}
+	})
+	return out
+}
+
+// resetFamily: reset and the helper closures only reset (or another of its
+// helpers) calls — "what reset does" when it is split into named steps.
+func (v *rtView) resetFamily() map[*ssa.Function]bool {
+	fam := map[*ssa.Function]bool{}
+	reset := v.cl["p.reset"]
+	if reset == nil {
+		return fam
+	}
+	fam[reset] = true
+	all := append([]*ssa.Function{}, v.ruleFns...)
+	for _, f := range v.cl {
+		all = append(all, f)
+	}
+	if v.initFn != nil {
+		all = append(all, v.initFn)
+	}
+	for changed := true; changed; {
+		changed = false
+		for _, cand := range v.cl {
+			if fam[cand] {
+				continue
+			}
+			calledByFam, calledElsewhere := false, false
+			for _, f := range all {
+				if f == nil || f == cand {
+					continue
+				}
+				if _, ok := v.calledClosures(f)[cand]; ok {
+					if fam[f] {
+						calledByFam = true
+					} else {
+						calledElsewhere = true
+					}
+				}
+			}
+			if calledByFam && !calledElsewhere {
+				fam[cand] = true
+				changed = true
+			}
+		}
+	}
+	return fam
+}
+
+// varNames: the names of Init's own (heap-allocated, captured) variables.
+func (v *rtView) varNames() map[string]bool {
+	out := map[string]bool{}
+	if v.initFn == nil {
+		return out
+	}
+	instrsOf(v.initFn, func(in ssa.Instruction) {
+		if a, ok := in.(*ssa.Alloc); ok && a.Comment != "" {
+			out[a.Comment] = true
+		}
+	})
+	return out
+}
